@@ -129,7 +129,7 @@ class ParticleBWRCoupling(Particle):
         if self.bw_l is None:
             decay = self.decay[0]
             self.bw_l = min(decay.get_l_list())
-        normal = Bprime_polynomial(self.bw_l, 1.0)
+        normal = Bprime_polynomial(self.bw_l, tf.ones_like(q2))
         gamma = (
             tf.sqrt(q2)
             / data["m"]
